@@ -3,7 +3,7 @@
    /repo on every run by srcfacts/golite.go) under the interpreter of Base/GoLite.v.  [fn t] is the
    translated function, or a function that panics at once when the translator refused it. *)
 From Coq Require Import String.
-From Radius Require Import Base.Bytes Base.Res Base.GoLite Gen.Src Model.SrcRun Proofs.SrcBase Proofs.SrcCtx Model.Attrs Spec.C09 Proofs.SrcAttrs.
+From Radius Require Import Base.Bytes Base.Res Base.GoLite Gen.Src Model.SrcRun Proofs.SrcBase Proofs.SrcCtx Model.Attrs Spec.C09 Proofs.SrcDefs Proofs.SrcAttrs.
 Open Scope list_scope.
 Open Scope nat_scope.
 
@@ -61,3 +61,16 @@ Theorem C09_program_Set : forall fuel k v vl,
   src_run "Attributes.Set" fuel [VList vl; VInt k; v] = Some (Some (VTup [VList (vset_list k v vl)])).
 Proof. exact program_Set. Qed.
 Print Assumptions C09_program_Set.
+
+(* non-vacuity: a concrete list with a repeated key *)
+Definition ex_attrs : list val := [vavp 1 (VBytes [97]%N); vavp 2 VNil; vavp 1 (VBytes [98]%N)].
+Example C09_src_example :
+  Forall is_avp ex_attrs /\
+  src_run "Attributes.Set" 100 [VList ex_attrs; VInt 1; VBytes [7]%N] = Some (Some (VTup [VList [vavp 1 (VBytes [7]%N); vavp 2 VNil]])) /\
+  src_run "Attributes.Del" 100 [VList ex_attrs; VInt 1] = Some (Some (VTup [VList [vavp 2 VNil]])) /\
+  src_run "Attributes.Lookup" 100 [VList ex_attrs; VInt 1] = Some (Some (VTup [VBytes [97]%N; VBool true])) /\
+  src_run "Attributes.Get" 100 [VList ex_attrs; VInt 3] = Some (Some VNil).
+Proof.
+  split; [unfold ex_attrs; repeat (apply Forall_cons; [apply is_avp_intro; solve [left; reflexivity | right; eexists; reflexivity]|]); apply Forall_nil|].
+  repeat split; vm_compute; reflexivity.
+Qed.
